@@ -184,12 +184,44 @@ Definition layout_submit (t : s_submit) : bytes :=
   0 :: submit_first_octet t :: s_mr t :: tp_addr (s_da t) ++ s_pid t :: s_dcs t ::
   vp_octets (s_vp t) ++ udl (s_ud t) :: ud_octets (s_ud t).
 
+(* ------------------------------------------------------------------ GSM 03.38 6.2.1: text in 7-bit codes *)
+(* extension table (6.2.1.1): code after the escape code 0x1B -> Unicode code point *)
+Definition ESCAPE : N := 27.
+Definition gsm_extension : list (N * N) :=
+  [(10, 12);      (* form feed *)
+   (20, 94);      (* ^ *)
+   (40, 123);     (* { *)
+   (41, 125);     (* } *)
+   (47, 92);      (* backslash *)
+   (60, 91);      (* [ *)
+   (61, 126);     (* ~ *)
+   (62, 93);      (* ] *)
+   (64, 124);     (* | *)
+   (101, 8364)].  (* euro sign *)
+Fixpoint ext_lookup (x : N) (l : list (N * N)) : option N :=
+  match l with [] => None | (c, r) :: t => if c =? x then Some r else ext_lookup x t end.
+
+(* a septet string is a text when every escape code is followed by a code of the extension table;
+   every other code < 128 is a character of the default alphabet (CR included).  An extension
+   character therefore counts as two septets. *)
+Fixpoint valid_text (ss : list N) : bool :=
+  match ss with
+  | [] => true
+  | s :: r =>
+    if s =? ESCAPE then
+      match r with
+      | [] => false
+      | x :: r' => match ext_lookup x gsm_extension with Some _ => valid_text r' | None => false end
+      end
+    else (s <? 128) && valid_text r
+  end.
+
 (* ------------------------------------------------------------------ well-formedness *)
 Definition addr_wf (a : s_addr) : Prop :=
   sa_npi a < 16 /\ sa_ton a < 8 /\
   match sa_val a with
   | Digits ds => sa_ton a <> 5 /\ Forall (fun d => d < 10) ds /\ 1 <= nlen ds <= 20
-  | Alnum ss => sa_ton a = 5 /\ Forall (fun s => s < 128) ss /\ 1 <= nlen ss <= 11
+  | Alnum ss => sa_ton a = 5 /\ valid_text ss = true /\ 1 <= nlen ss <= 11
   end.
 Definition sc_wf (a : s_addr) : Prop :=
   addr_wf a /\ match sa_val a with Digits _ => True | Alnum _ => False end.
@@ -218,3 +250,16 @@ Definition gsm_default_alphabet : list N :=
    191;  97;  98;  99; 100; 101; 102; 103; 104; 105; 106; 107; 108; 109; 110; 111;    (* ¿ a..o *)
    112; 113; 114; 115; 116; 117; 118; 119; 120; 121; 122; 228; 246; 241; 252; 224 ].  (* p..z ä ö ñ ü à *)
 Definition gsm_char (s : N) : N := nth (N.to_nat s) gsm_default_alphabet 0.
+
+(* the characters of a text (Unicode code points) *)
+Fixpoint gsm_text (ss : list N) : list N :=
+  match ss with
+  | [] => []
+  | s :: r =>
+    if s =? ESCAPE then
+      match r with
+      | [] => []
+      | x :: r' => match ext_lookup x gsm_extension with Some c => c :: gsm_text r' | None => gsm_text r' end
+      end
+    else gsm_char s :: gsm_text r
+  end.
